@@ -163,10 +163,8 @@ impl MaybeTagged<CoseMac0> {
         detached_payload: Option<&[u8]>,
         external_aad: Option<&[u8]>,
     ) -> VerificationResult {
-        if let Some(RegisteredLabelWithPrivate::Assigned(alg)) =
-            self.inner.protected.header.alg.as_ref()
-        {
-            if verifier.algorithm() != *alg {
+        if let Some(alg) = self.inner.protected.header.alg.as_ref() {
+            if *alg != RegisteredLabelWithPrivate::Assigned(verifier.algorithm()) {
                 return VerificationResult::Failure(
                     "algorithm in protected headers did not match verifier's algorithm".into(),
                 );
